@@ -20,11 +20,25 @@ binding:   (a) every CASE line of TLC (old, script, expected new) and every CORR
                is parsed twice with the first parse's hunk lists mutated in between, two generators
                over two different scripts are advanced alternately, and the caller's script / old
                lists must stay untouched; expected results are TLC's;
+           (a") size stress (notes/SIZE_STRESS.md): the abstract case does not change, its
+               concretization gets a size dimension -- every abstract line stands for a run of r
+               concrete lines (files of 2..100000 lines, cut so that addresses fall next to
+               9/10, 99/100, ..., 99999/100000: 1..6 digit line numbers), every text line for a run
+               of up to 1025 lines, lines up to 64 KiB, identical lines sharing one object.  The
+               expected result is the expansion of the tag structure `tnew` that TLC computes for
+               the case (EdScript.tla, Structure / StructureConsistent: length-independent by
+               construction).  Numbers >= 2**31 occur only syntactically (in corrupted command
+               lines, must raise ValueError) and in the unspecified zone;
            (b) random (old, new) pairs, script from an independent differ (difflib opcodes emitted
                bottom-up in three styles; thorough: /usr/bin/diff -e), the real code applies every
                script prefix and the whole script; TLC (TraceEdScript) applies the logged commands
                with EdApply and must reach every observed buffer and `new`; randomly corrupted
                scripts are logged as token sequences and Parse must predict the outcome.
+           (b') size stress in the recorded executions: files of 9..1001 lines with scripts of
+               100+ commands validated line by line by TLC; files of 10^4 / 10^5 lines as scaled
+               executions (runs of distinct lines, observed result collapsed run by run to line ids
+               before TLC applies the logged commands to the abstract buffer); 64 KiB lines;
+               thorough: diff -e on files up to 1001 lines.
 verdict observables: result list == expected (TLC), ValueError for every corruption.
 unspecified (executed, any outcome accepted, recorded in the evidence): 0c, 0d, reversed ranges,
            addresses beyond the buffer, non-ASCII digits, empty text blocks, white space / CR /
@@ -44,7 +58,7 @@ import core
 
 MANIFEST = dict(
     technique="TLA+ spec EdScript (ed reference semantics + declarative diff target + line automaton of patches_from_ed_script + slice assignment of patch_lines) model-checked by TLC over all bounded buffers x generator scripts x single corruptions; every TLC case replayed into the real functions (str/bytes, list/iterator/file-like sources); recorded executions on difflib / diff -e scripts validated by TLC (TraceEdScript)",
-    text="TLC enumerates every buffer of at most 4 lines over 2 line ids and every script of at most 3 commands that a bottom-up differ can emit (a/c/d, one- and two-address forms, blocks of 1-2 lines, hunks that touch) and checks in each state that the (first,last,lines) conversion plus slice assignment equals ed's semantics, that command-by-command application reaches the declarative target of the diff, and that the parser automaton rejects every script with one syntactic corruption (8 kinds). Each enumerated case and corruption carries TLC's expected result and is replayed into patches_from_ed_script/patch_lines with str and bytes concretizations (lines such as '..', '.x', '1d', '2,3c', empty, non-ASCII) from list, iterator and file-like sources; for every case the check also shows that no state survives between calls (one materialised patches list applied to two buffers, the script parsed twice with the first parse's hunk lists mutated in between, two parsers over different scripts advanced alternately, caller's lists untouched). In the other direction random (old,new) pairs up to 30 lines get a script from an independent differ (difflib in three emission styles; diff -e in the thorough tier); the real code's result for every script prefix and for the whole script is logged and TLC must explain it with EdApply and reach new.",
+    text="TLC enumerates every buffer of at most 4 lines over 2 line ids and every script of at most 3 commands that a bottom-up differ can emit (a/c/d, one- and two-address forms, blocks of 1-2 lines, hunks that touch) and checks in each state that the (first,last,lines) conversion plus slice assignment equals ed's semantics, that command-by-command application reaches the declarative target of the diff, and that the parser automaton rejects every script with one syntactic corruption (8 kinds). Each enumerated case and corruption carries TLC's expected result and is replayed into patches_from_ed_script/patch_lines with str and bytes concretizations (lines such as '..', '.x', '1d', '2,3c', empty, non-ASCII) from list, iterator and file-like sources; for every case the check also shows that no state survives between calls (one materialised patches list applied to two buffers, the script parsed twice with the first parse's hunk lists mutated in between, two parsers over different scripts advanced alternately, caller's lists untouched). Size stress in both directions: the same abstract cases are also concretized with every abstract line standing for a run of lines (files up to 100000 lines with addresses next to every power of ten, hunks up to 1025 lines, 64 KiB lines; the expected result is the expansion of the tag structure TLC computes for the case), and recorded executions include scripts of 100+ commands on files of 1000 lines (validated line by line by TLC) and of 10^4/10^5 lines (collapsed run by run). In the other direction random (old,new) pairs up to 30 lines get a script from an independent differ (difflib in three emission styles; diff -e in the thorough tier); the real code's result for every script prefix and for the whole script is logged and TLC must explain it with EdApply and reach new.",
     note="Small-scope for the exhaustive part (buffers <= 4 lines, scripts <= 3 commands); line text is sampled. Semantically odd commands (0c, 0d, reversed ranges, out-of-range addresses, non-ASCII digits, empty blocks, white space around commands) are executed but unspecified. Trusted: TLC, the concretizer, difflib/diff -e as script sources, the small parser that reads diff -e output back into a command list (a wrong parse is rejected by TLC, never accepted). Three spec-level negative controls and corrupted control traces are required to fail in every run.",
     design="5 (C18)")
 
@@ -59,6 +73,14 @@ CANON = ["A", "B", "C", "D", "E", "F", "G", "H", "I", "J"]
 UNKNOWN_LETTERS = ["x", "b", "o", "z", "A", "D", "C", "?", "é"]
 GARBAGE_AFTER = ["x", " foo", "1", ".", "a", "!", ",2", "d"]
 GARBAGE_BEFORE = ["x", "foo ", "a"]
+# SIZE_STRESS.md: boundary neighbourhoods for line lengths, file sizes, hunk sizes
+LINE_LENGTHS = [63, 64, 65, 127, 128, 129, 255, 256, 257, 1023, 1024, 1025, 4095, 4096, 4097, 8191, 8192, 8193,
+                65535, 65536, 65537]
+FILE_SIZES = [2, 9, 10, 11, 99, 100, 101, 999, 1000, 1001, 10000, 100000]
+FILE_WEIGHTS = [2, 6, 6, 6, 8, 8, 8, 8, 8, 8, 8, 3]
+CUTS = [1, 1, 2, 8, 9, 10, 98, 99, 100, 998, 999, 1000, 9998, 9999, 10000]
+BIG_NUMBERS = [2**15, 2**16, 2**31 - 1, 2**31, 2**32 - 1, 2**32, 2**63 - 1, 2**63, 10**18, 10**30]
+HUNK_SIZES = [1, 1, 1, 1, 2, 2, 3, 9, 10, 11, 1, 1, 16, 17, 31, 32, 33, 99, 100, 101, 255, 256, 257, 1, 2, 1000, 1024, 1025]
 TYPES = ("str", "bytes")
 NLS = ("nl", "lastbare", "bare")
 SOURCES = ("list", "tuple", "iter", "gen", "file", "readline")
@@ -82,7 +104,7 @@ class Conc:
     """line id -> distinct concrete text; typ: str/bytes; nl: every line ends in a newline /
     all but the last script line / no line has one (a script read with splitlines())"""
 
-    def __init__(self, rng, nids, typ, nl, canonical=False, safe=False):
+    def __init__(self, rng, nids, typ, nl, canonical=False, safe=False, longlines=False):
         self.typ, self.nl = typ, nl
         if canonical:
             texts = CANON[:nids]
@@ -90,6 +112,11 @@ class Conc:
                 texts = [x.encode() for x in texts]
         else:
             texts = rng.sample(_pool(typ, nl, safe), nids)
+        if longlines:
+            # SIZE_STRESS: very long lines; the pool text stays as prefix so that the line still
+            # looks like '..', '1d', ... and the lines stay distinct
+            fill = "x" if typ == "str" else b"x"
+            texts = [t + fill * max(0, rng.choice(LINE_LENGTHS) - len(t)) for t in texts]
         self.text = {i + 1: t for i, t in enumerate(texts)}
         self.NL = "\n" if typ == "str" else b"\n"
         self.E = "" if typ == "str" else b""
@@ -105,24 +132,34 @@ class Conc:
     def enc(self, s):
         return s if self.typ == "str" else s.encode("utf-8")
 
+    def line(self, i):
+        """the concrete buffer/text line of id i (cached: lines may be 64 KiB long)"""
+        c = self.__dict__.setdefault("_lines", {})
+        if i not in c:
+            c[i] = self.text[i] + (self.E if self.nl == "bare" else self.NL)
+        return c[i]
+
     def buf(self, ids):
-        end = self.E if self.nl == "bare" else self.NL
-        return [self.text[i] + end for i in ids]
+        return [self.line(i) for i in ids]
 
     def rev(self):
-        end = self.E if self.nl == "bare" else self.NL
-        return {t + end: i for i, t in self.text.items()}
+        return {self.line(i): i for i in self.text}
 
-    def script(self, toks, rng=None):
-        """token sequence (EncTok form: [] dot, [id] text, [k, n, m, g] command line) -> lines"""
+    def script(self, toks, rng=None, big_at=None):
+        """token sequence (EncTok form: [] dot, [id] text, [k, n, m, g] command line) -> lines.
+        big_at: index of a (corrupted) command token whose numbers are made huge (>= 2**31)"""
+        end = self.E if self.nl == "bare" else self.NL
         out = []
-        for tk in toks:
+        for idx, tk in enumerate(toks):
             if len(tk) == 0:
-                out.append(self.enc("."))
+                out.append(self.enc(".") + end)
             elif len(tk) == 1:
-                out.append(self.text[tk[0]])
+                out.append(self.line(tk[0]))
             else:
                 k, n, m, g = tk
+                if idx == big_at:
+                    big = rng.choice(BIG_NUMBERS)
+                    n, m = (n + big if n >= 0 else n), (m + big if m >= 0 else m)
                 if k == "x":
                     k = rng.choice(UNKNOWN_LETTERS) if rng else "x"
                 s = ("" if n < 0 else str(n)) + ("" if m < 0 else ",%d" % m) + k
@@ -131,13 +168,10 @@ class Conc:
                         s = rng.choice(GARBAGE_BEFORE) + s
                     else:
                         s = s + (rng.choice(GARBAGE_AFTER) if rng else "x")
-                out.append(self.enc(s))
-        if self.nl == "bare":
-            return out
-        res = [l + self.NL for l in out]
-        if self.nl == "lastbare" and res:
-            res[-1] = out[-1]
-        return res
+                out.append(self.enc(s) + end)
+        if self.nl == "lastbare" and out:
+            out[-1] = out[-1][:-1]
+        return out
 
     def to_json(self):
         return {"typ": self.typ, "nl": self.nl, "text": {str(k): v for k, v in self.text.items()}}
@@ -160,6 +194,144 @@ def tok_record(tk):
     if len(tk) == 1:
         return {"ty": "text", "k": "-", "n": -1, "m": -1, "g": False, "id": tk[0]}
     return {"ty": "cmd", "k": tk[0], "n": tk[1], "m": tk[2], "g": tk[3], "id": 0}
+
+
+# ------------------------------------------------------------------ size-stressed concretization
+# The abstract case does not change: every abstract line (tag) stands for a RUN of r >= 1 concrete
+# lines and every address for the corresponding prefix sum.  EdApply never looks inside a line, so
+# this commutes with ed's semantics (EdScript.tla, Structure / StructureConsistent): the expected
+# result of a scaled case is the expansion of the tag structure computed by TLC (replay leg), and
+# the observed result of a scaled execution is collapsed run by run to line ids before TLC sees
+# it (trace leg).
+
+class Scale:
+    def __init__(self, conc, old_ids, runs, unique):
+        """runs[p-1] = number of concrete lines the p-th abstract line stands for"""
+        self.conc, self.unique = conc, unique
+        self.old_ids = list(old_ids)
+        self.runs = list(runs)
+        self.P = [0]
+        for r in self.runs:
+            self.P.append(self.P[-1] + r)
+        self.segs = [self._run(conc.text[i], "o%d" % (p + 1), r) for p, (i, r) in enumerate(zip(old_ids, runs))]
+        self.first = {}
+        if unique:
+            for seg, i in zip(self.segs, old_ids):
+                self.first[seg[0]] = (seg, i)
+
+    def _run(self, text, label, r):
+        c = self.conc
+        end = c.E if c.nl == "bare" else c.NL
+        if not self.unique:
+            return [text + end] * r            # identical lines, one shared object
+        return [text + c.enc("#%s.%d" % (label, k)) + end for k in range(r)]
+
+    def old_lines(self):
+        out = []
+        for seg in self.segs:
+            out += seg
+        return out
+
+    def text_run(self, label, line_id, k):
+        run = self._run(self.conc.text[line_id], label, k)
+        if self.unique:
+            self.first[run[0]] = (run, line_id)
+        return run
+
+    def command(self, k, n, m, two):
+        """command line for the abstract command k on abstract lines n..m"""
+        if k == "a":
+            return self.ctl("%da" % self.P[n])
+        first, last = self.P[n - 1] + 1, self.P[m]
+        if first == last and not two:
+            return self.ctl("%d%s" % (first, k))
+        return self.ctl("%d,%d%s" % (first, last, k))
+
+    def ctl(self, s):
+        """a command line or the terminator"""
+        c = self.conc
+        return c.enc(s) + (c.E if c.nl == "bare" else c.NL)
+
+    def finish(self, script):
+        """a well-formed script ends in a command line or a terminator: strip its newline in the
+        'last line without newline' style"""
+        if self.conc.nl == "lastbare" and script:
+            script[-1] = script[-1][:-1]
+        return script
+
+    def collapse(self, lines):
+        """observed concrete lines -> line ids, run by run; None when the lines are not a sequence
+        of complete runs (then nothing the specification could produce)"""
+        out, i, n = [], 0, len(lines)
+        while i < n:
+            ent = self.first.get(lines[i])
+            if ent is None:
+                return None
+            run, line_id = ent
+            if lines[i:i + len(run)] != run:
+                return None
+            out.append(line_id)
+            i += len(run)
+        return out
+
+
+def scale_params(v, hc):
+    """choose run lengths for a TLC case: a one-address c/d keeps its one-line segment (the form of
+    the command is part of the case), one free segment absorbs the file size, the others get sizes
+    that put the addresses next to 9/10, 99/100, 999/1000, 9999/10000"""
+    n = len(v["old"])
+    forced = {tk[1] for tk in v["lines"] if len(tk) == 4 and tk[0] in "cd" and tk[2] < 0}
+    free = [p for p in range(1, n + 1) if p not in forced]
+    runs = [1] * n
+    if free:
+        total = FILE_SIZES[_weighted(hc, FILE_WEIGHTS)]
+        big = hc.choice(free)
+        for p in free:
+            if p != big:
+                runs[p - 1] = hc.choice([c for c in CUTS if c < max(2, total // 2)] or [1])
+        runs[big - 1] = max(1, total - (sum(runs) - 1))
+    ks = {}
+    j = i = 0
+    for tk in v["lines"]:
+        if len(tk) == 4:
+            j, i = j + 1, 0
+        elif len(tk) == 1:
+            i += 1
+            ks[str(100 * j + i)] = hc.choice(HUNK_SIZES)
+    return {"runs": runs, "hunks": ks, "unique": hc.random() < 0.6}
+
+
+def _weighted(hc, weights):
+    x = hc._next() % sum(weights)
+    for i, w in enumerate(weights):
+        if x < w:
+            return i
+        x -= w
+    return len(weights) - 1
+
+
+def build_scaled(v, conc, params):
+    """TLC case + run lengths -> (old_lines, script_lines, expected): expected is the expansion of
+    the tag structure `tnew` computed by TLC"""
+    unique = params["unique"] and max(len(t) for t in conc.text.values()) < 200
+    sc = Scale(conc, v["old"], params["runs"], unique)
+    script, runs = [], {}
+    j = i = 0
+    for tk in v["lines"]:
+        if len(tk) == 4:
+            j, i = j + 1, 0
+            script.append(sc.command(tk[0], tk[1], tk[1] if tk[2] < 0 else tk[2], tk[2] >= 0))
+        elif len(tk) == 1:
+            i += 1
+            tag = 100 * j + i
+            runs[tag] = sc.text_run("t%d.%d" % (j, i), tk[0], params["hunks"][str(tag)])
+            script += runs[tag]
+        else:
+            script.append(sc.ctl("."))
+    expected = []
+    for t in v["tnew"]:
+        expected += sc.segs[t - 1] if t < 100 else runs[t]
+    return sc.old_lines(), sc.finish(script), expected
 
 
 # ------------------------------------------------------------------ driving the real code
@@ -201,8 +373,27 @@ def run_real(old_lines, script_lines, kind, typ):
     return "ok", lines
 
 
+def _short(l):
+    if len(l) <= 60:
+        return repr(l)
+    return "%r...(%d chars)...%r" % (l[:24], len(l), l[-12:])
+
+
 def show(lines):
-    return "[" + ", ".join(repr(l) for l in lines) + "]"
+    if lines is None:
+        return "None"
+    if len(lines) <= 14:
+        return "[" + ", ".join(_short(l) for l in lines) + "]"
+    return "[" + ", ".join(_short(l) for l in lines[:8]) + ", ...(%d lines)..., " % len(lines) + ", ".join(_short(l) for l in lines[-4:]) + "]"
+
+
+def where_differ(got, expected):
+    if got is None or expected is None:
+        return ""
+    for i, (a, b) in enumerate(zip(got, expected)):
+        if a != b:
+            return " (first difference at line %d: %s instead of %s; %d lines instead of %d)" % (i + 1, _short(a), _short(b), len(got), len(expected))
+    return " (%d lines instead of %d)" % (len(got), len(expected))
 
 
 def check_apply(old_lines, script_lines, expected, kind, typ):
@@ -211,8 +402,8 @@ def check_apply(old_lines, script_lines, expected, kind, typ):
         return "script %s on %s (%s source): %s, specification says result %s" % (
             show(script_lines), show(old_lines), kind, res.replace("EXC:", "raised "), show(expected))
     if got != expected or [type(x) for x in got] != [type(x) for x in expected]:
-        return "script %s on %s (%s source): result %s, specification says %s" % (
-            show(script_lines), show(old_lines), kind, show(got), show(expected))
+        return "script %s on %s (%s source): result %s, specification says %s%s" % (
+            show(script_lines), show(old_lines), kind, show(got), show(expected), where_differ(got, expected))
     return None
 
 
@@ -381,8 +572,8 @@ def replay_cases(ctx, raw_path, maxbuf, quick):
     concs = {}
     for typ in TYPES:
         for nl in NLS:
-            concs[(typ, nl, False)] = [Conc(rng, nids, typ, nl, canonical=(i == 0)) for i in range(24)]
-            concs[(typ, nl, True)] = [Conc(rng, nids, typ, nl, canonical=(i == 0), safe=True) for i in range(24)]
+            concs[(typ, nl, False)] = [Conc(rng, nids, typ, nl, canonical=(i == 0), longlines=(i >= 20)) for i in range(24)]
+            concs[(typ, nl, True)] = [Conc(rng, nids, typ, nl, canonical=(i == 0), safe=True, longlines=(i >= 21)) for i in range(24)]
     ncase = ncorr = nrun = 0
     reps = 4 if quick else 2
     per_cmd = {}
@@ -391,6 +582,9 @@ def replay_cases(ctx, raw_path, maxbuf, quick):
     samples = {}
     stash = []
     stash_mod = 1 if quick else 16
+    scale_mod = 23 if quick else 97
+    nscaled = 0
+    scaled_sizes = {}
     for tag, v, h in stream_printed(raw_path):
         if len(ctx.violations) >= 5:
             break
@@ -422,6 +616,30 @@ def replay_cases(ctx, raw_path, maxbuf, quick):
                                    "old_lines": old_lines, "script_lines": script_lines,
                                    "expected": {"res": "ok", "lines": expected}}, msg)
                     break
+            if h % scale_mod == 0 and v["old"] and not ctx.violations:
+                # size stress: the same abstract case, every abstract line a run of many lines
+                hs = HashChoice((h + 29) ^ (ctx.seed * 69069 & 0x7FFFFFFF))
+                params = scale_params(v, hs)
+                typ = hs.choice(TYPES)
+                nl = hs.choice(NLS)
+                kind = hs.choice(SOURCES)
+                if not usable_source(kind, nl):
+                    kind = hs.choice(("list", "tuple", "iter", "gen"))
+                conc = hs.choice(concs[(typ, nl, False)])
+                s_old, s_script, s_exp = build_scaled(v, conc, params)
+                msg = check_apply(s_old, s_script, s_exp, kind, typ)
+                nrun += 1
+                nscaled += 1
+                b = len(str(len(s_old)))
+                scaled_sizes["%d-digit" % b] = scaled_sizes.get("%d-digit" % b, 0) + 1
+                if max(params["hunks"].values() or [0]) >= 1000:
+                    scaled_sizes["hunk>=1000"] = scaled_sizes.get("hunk>=1000", 0) + 1
+                if len(s_old) >= 10000 and ("scaled",) not in samples and len(toks) >= 4:
+                    samples[("scaled",)] = "SCALED old=%s script=%s tnew=%s runs=%s: %s on %d lines -> %d lines" % (
+                        v["old"], json.dumps(toks, separators=(",", ":")), v["tnew"], params["runs"], show(s_script), len(s_old), len(s_exp))
+                if msg:
+                    ctx.violation({"kind": "scaled", "abstract": v, "conc": conc.to_json(), "params": params, "typ": typ, "src": kind},
+                                  "[size stress: runs %s, hunks %s] %s" % (params["runs"], params["hunks"], msg))
             ctx.case_seen(("case", h, ncase), bool(toks))
             if h % stash_mod == 0:
                 stash.append((h, json.dumps(v, separators=(",", ":"))))
@@ -445,7 +663,8 @@ def replay_cases(ctx, raw_path, maxbuf, quick):
                     kind = "gen" if rep >= 2 else "list"
                 conc = hc.choice(concs[(typ, nl, safe)])
                 old_lines = conc.buf([1] * maxbuf)
-                script_lines = conc.script(v["lines"], hc)
+                big = v["pos"] - 1 if rep == 3 and v["kind"] in ("letter", "nonum", "garbage", "arange") else None
+                script_lines = conc.script(v["lines"], hc, big_at=big)
                 msg = check_raises(old_lines, script_lines, kind, typ)
                 nrun += 1
                 if msg:
@@ -479,7 +698,9 @@ def replay_cases(ctx, raw_path, maxbuf, quick):
     ctx.extra["stateless_pairs_checked"] = nstate
     ctx.evaluations += nstate
     ks = sorted(samples)
-    for k in [x for x in ks if x[0] == "a"][:2] + [x for x in ks if x[0] == "b"][:2]:
+    ctx.extra["scaled_cases_replayed"] = nscaled
+    ctx.extra["scaled_file_sizes"] = dict(sorted(scaled_sizes.items()))
+    for k in [x for x in ks if x[0] == "a"][:2] + [x for x in ks if x[0] == "scaled"] + [x for x in ks if x[0] == "b"][:1]:
         ctx.sample(samples[k])
     ctx.extra["cases_replayed"] = ncase
     ctx.extra["corruptions_replayed"] = ncorr
@@ -505,6 +726,8 @@ def unspecified_zone(ctx):
             "nonascii-digit": ["٣d"], "trailing-space": ["1d "], "trailing-cr": ["1d\r"], "leading-space": [" 1d"],
             "print-suffix": ["1dp"], "relative": ["-1d"], "plus": ["+1d"], "ascending": ["1d", "3d"],
             "same-address-a": ["1a", "A", ".", "1a", "B", "."], "overlap": ["2,3d", "3d"],
+            "number-2^31": ["2147483648d"], "number-2^32": ["1,4294967296d"], "number-2^64-a": ["18446744073709551616a", "A", "."],
+            "number-10^30": ["1" + "0" * 30 + "d"], "leading-zeros": ["003d"], "leading-zeros-range": ["01,00002c", "A", "."],
         }
         for name, sc in sorted(scripts.items()):
             lines = [conc.enc(s) + conc.NL for s in sc]
@@ -633,23 +856,93 @@ def observe(rev, res, lines):
     return {"res": "ok", "obs": [rev.get(l, 0) for l in lines]}
 
 
-def record_apply(ctx, rng, old, new, nids, script, conc, final_kind, script_lines=None):
+def record_apply(ctx, rng, old, new, nids, script, conc, final_kind, script_lines=None, scale=None):
     """run the real code on every prefix of the script (list source) and on the whole script
-    (final_kind source); log what it produced as line-id sequences"""
-    rev = conc.rev()
-    old_lines = conc.buf(old)
+    (final_kind source); log what it produced as line-id sequences.
+    scale = {"runs": [...], "ks": [...]}: size-stressed execution -- the p-th abstract line is a run
+    of runs[p-1] distinct concrete lines, every text line of command j a run of ks[j-1] lines,
+    addresses are prefix sums; the observed lines are collapsed run by run before they are logged."""
+    if scale is None:
+        rev = conc.rev()
+        old_lines = conc.buf(old)
+
+        def obs(res, got):
+            return observe(rev, res, got)
+
+        def prefix(i):
+            return conc.script(cmd_tokens(script[:i]))
+    else:
+        sc = Scale(conc, old, scale["runs"], True)
+        old_lines = sc.old_lines()
+        per_cmd = []
+        for j, c in enumerate(script, 1):
+            ls = [sc.command(c["k"], c["n"], c["m"], c["r"])]
+            if c["k"] != "d":
+                for i, x in enumerate(c["t"], 1):
+                    ls += sc.text_run("t%d.%d" % (j, i), x, scale["ks"][j - 1])
+                ls.append(sc.ctl("."))
+            per_cmd.append(ls)
+
+        def obs(res, got):
+            if res != "ok":
+                return {"res": res, "obs": []}
+            ids = sc.collapse(got)
+            return {"res": "ok", "obs": ids if ids is not None else [0]}
+
+        def prefix(i):
+            out = []
+            for ls in per_cmd[:i]:
+                out += ls
+            return sc.finish(out)
     events = []
     for i in range(1, len(script) + 1):
-        pl = conc.script(cmd_tokens(script[:i]))
-        res, got = run_real(old_lines, pl, "list", conc.typ)
-        events.append(dict(cmd=script[i - 1], **observe(rev, res, got)))
+        res, got = run_real(old_lines, prefix(i), "list", conc.typ)
+        events.append(dict(cmd=script[i - 1], **obs(res, got)))
     if script_lines is None:
-        script_lines = conc.script(cmd_tokens(script))
+        script_lines = prefix(len(script))
     res, got = run_real(old_lines, script_lines, final_kind, conc.typ)
-    trace = {"kind": "apply", "old": old, "new": new, "events": events, "final": observe(rev, res, got)}
+    trace = {"kind": "apply", "old": old, "new": new, "events": events, "final": obs(res, got)}
     meta = {"kind": "apply", "old": old, "new": new, "script": script, "conc": conc.to_json(), "typ": conc.typ,
-            "src": final_kind, "old_lines": old_lines, "script_lines": script_lines}
+            "src": final_kind, "old_lines": old_lines, "script_lines": script_lines, "scale": scale}
     return trace, meta
+
+
+def dense_pair(rng, n, nids, ncmds):
+    """a file of n lines with about ncmds small edits spread over the whole file (first and last
+    line included)"""
+    ids = list(range(1, nids + 1))
+    old = [rng.choice(ids) for _ in range(n)]
+    p = min(0.9, float(ncmds) / max(n, 1))
+    new = []
+    for pos, x in enumerate(old):
+        if pos in (0, n - 1) or rng.random() < p:
+            r = rng.random()
+            if r < 0.4:
+                new.append(x % nids + 1)
+            elif r < 0.7:
+                pass
+            else:
+                new += [x, rng.choice(ids)] if rng.random() < 0.5 else [rng.choice(ids), x]
+        else:
+            new.append(x)
+    return old, new
+
+
+def scale_for(rng, nsegs, total, script):
+    """run lengths whose prefix sums pass 1, 9, 99, 999 and reach `total` lines"""
+    head = [1, 8, 90, 900][:max(0, nsegs - 1)]
+    while sum(head) + (nsegs - len(head)) > total and head:
+        head.pop()
+    rest = nsegs - len(head)
+    runs = list(head)
+    if rest:
+        base = (total - sum(head)) // rest
+        runs += [max(1, base)] * rest
+        runs[-1] = max(1, total - sum(runs[:-1]))
+    ks = [rng.choice([1, 1, 1, 2, 9, 10, 11, 100]) for _ in script]
+    if ks:
+        ks[rng.randrange(len(ks))] = rng.choice([1000, 1024, 1025])
+    return {"runs": runs, "ks": ks}
 
 
 CORRUPT_KINDS = ("letter", "nonum", "garbage", "arange", "text", "nocmd", "dot", "unterminated", "dropdot")
@@ -804,6 +1097,55 @@ def recorded_executions(ctx, quick):
         per_style[style] = per_style.get(style, 0) + 1
         traces.append(tr)
         metas.append(meta)
+    # ---- size stress (SIZE_STRESS.md): files around 10 / 100 / 1000 lines validated line by line
+    # by TLC; files of 10^4 and 10^5 lines as scaled executions (runs collapsed to ids); scripts of
+    # 100+ commands; hunks of 1000+ lines; 64 KiB lines
+    plan = [(n, "direct") for n in (9, 10, 11, 99, 100, 101) for _ in range(2 if quick else 8)]
+    big = [999, 1000, 1001]
+    plan += [(big[(ctx.seed + i) % 3], "direct") for i in range(2 if quick else 9)]
+    plan += [(10000, "scaled"), (100000, "scaled")] * (1 if quick else 5)
+    plan += [(rng.choice((2, 9, 30)), "longlines") for _ in range(6 if quick else 40)]
+    if have_diff and not quick:
+        plan += [(n, "diff-e-big") for n in (99, 100, 101, 999, 1000, 1001)]
+    max_cmds = 0
+    for n, (size, how) in enumerate(plan):
+        typ = TYPES[n % 2]
+        kind = rng.choice(SOURCES)
+        nl = rng.choice(("nl", "nl", "lastbare"))
+        scale = None
+        if how == "scaled":
+            nsegs = rng.choice((180, 200, 255, 256, 257))
+            old, new = dense_pair(rng, nsegs, 7, 110)
+            nids = 7
+            script = difflib_script(rng, old, new, styles[n % 3])
+            scale = scale_for(rng, nsegs, size, script)
+            conc = Conc(rng, nids, typ, nl)
+            tr, meta = record_apply(ctx, rng, old, new, nids, script, conc, kind, scale=scale)
+        elif how == "diff-e-big":
+            nids = 25
+            old, new = dense_pair(rng, size, nids, 120)
+            conc = Conc(rng, nids, "bytes", "nl")
+            raw_lines, script = diff_e_script(ctx, conc.buf(old), conc.buf(new), conc.rev(), 10 ** 6 + n)
+            tr, meta = record_apply(ctx, rng, old, new, nids, script, conc, kind, script_lines=raw_lines)
+        else:
+            nids = 25 if size > 200 else 6
+            if how == "longlines":
+                old, new, nids = random_pair(rng, size)
+                conc = Conc(rng, nids, typ, nl, longlines=True)
+            else:
+                old, new = dense_pair(rng, size, nids, 120 if size > 200 else max(3, size // 4))
+                conc = Conc(rng, nids, typ, nl)
+            script = difflib_script(rng, old, new, styles[n % 3])
+            tr, meta = record_apply(ctx, rng, old, new, nids, script, conc, kind)
+        max_cmds = max(max_cmds, len(script))
+        style = "size:%s:%d" % (how, size)
+        meta["style"] = style
+        per_style[style] = per_style.get(style, 0) + 1
+        traces.append(tr)
+        metas.append(meta)
+    ctx.extra["longest_recorded_script_commands"] = max_cmds
+    if max_cmds < 100:
+        raise core.MachineryError("size stress did not produce a script of 100+ commands (max %d)" % max_cmds)
     napply = len(traces)
     made = 0
     while made < ncorrupt:
@@ -836,7 +1178,10 @@ def recorded_executions(ctx, quick):
             metas[ex]["style"], traces[ex]["old"], traces[ex]["new"], show(metas[ex]["script_lines"]), traces[ex]["final"]["obs"]))
     for i in rejected[:5]:
         t, meta = traces[i - 1], metas[i - 1]
-        ctx.violation(dict(meta, kind="trace", trace=t), "recorded execution not explained by EdScript: " + explain(t, meta, info.get(i, 0)))
+        msg = "recorded execution not explained by EdScript: " + explain(t, meta, info.get(i, 0))
+        if meta.get("scale"):       # rebuilt from the recipe on replay: do not store 10^5 lines
+            meta = {k: v for k, v in meta.items() if k not in ("old_lines", "script_lines")}
+        ctx.violation(dict(meta, kind="trace", trace=t), msg)
 
 
 # ------------------------------------------------------------------ the check
@@ -880,6 +1225,10 @@ def replay(ctx, case):
         return check_raises(case["old_lines"], case["script_lines"], case["src"], case["typ"])
     if kind == "stateless":
         return check_stateless(case["A"], case["B"])
+    if kind == "scaled":
+        conc = Conc.from_text(case["conc"]["typ"], case["conc"]["nl"], {int(k): v for k, v in case["conc"]["text"].items()})
+        old_lines, script_lines, expected = build_scaled(case["abstract"], conc, case["params"])
+        return check_apply(old_lines, script_lines, expected, case["src"], case["typ"])
     if kind == "trace":
         t = case["trace"]
         if t["kind"] == "corrupt":
@@ -888,8 +1237,9 @@ def replay(ctx, case):
         else:
             conc = Conc.from_text(case["conc"]["typ"], case["conc"]["nl"],
                                   {int(k): v for k, v in case["conc"]["text"].items()})
-            new, _ = record_apply(ctx, None, case["old"], case["new"], len(conc.text), case["script"], conc,
-                                  case["src"], script_lines=case["script_lines"])
+            new, meta = record_apply(ctx, None, case["old"], case["new"], len(conc.text), case["script"], conc,
+                                     case["src"], script_lines=case.get("script_lines"), scale=case.get("scale"))
+            case = dict(case, old_lines=meta["old_lines"], script_lines=meta["script_lines"])
         rejected, info = validate(ctx, [new], with_controls=False)
         if rejected:
             return "execution still not explained by the specification: " + explain(new, case, info.get(1, 0))
